@@ -27,6 +27,13 @@ Proof.
   destruct (Rltb bigR v) eqn:E; [apply Rltb_true in E; lra | reflexivity].
 Qed.
 
+Lemma clean_xy_char {T} (OP : ops T) p : clean_xy OP p = (clean OP (fst p), clean OP (snd p)).
+Proof. reflexivity. Qed.
+Lemma map_clean_xy {T} (OP : ops T) (pts : list (T * T)) :
+  map fst (map (clean_xy OP) pts) = map (fun p => clean OP (fst p)) pts /\
+  map snd (map (clean_xy OP) pts) = map (fun p => clean OP (snd p)) pts.
+Proof. split; rewrite map_map; apply map_ext; intros p; reflexivity. Qed.
+
 Lemma map_clean_id {A} (f : A -> R) l : Forall (fun p => f p <= bigR) l -> map (fun p => clean RO (f p)) l = map f l.
 Proof. induction 1; cbn; [reflexivity|]. rewrite clean_id by assumption. f_equal. assumption. Qed.
 
@@ -102,37 +109,47 @@ Qed.
 (* _compute_bound_centers over the reals, for a non-empty list of valid (<= 9e29) projected points *)
 Definition valid_pts (pts : list (R * R)) : Prop := pts <> [] /\ Forall (fun p => fst p <= bigR) pts /\ Forall (fun p => snd p <= bigR) pts.
 
+(* when the antimeridian branch is taken (geographic CRS, x span > 355, not at a pole) *)
+Definition antimeridian_branch (geo : bool) (pts : list (R * R)) : bool :=
+  let xs := map fst pts in let ys := map snd pts in
+  geo && passes_antimeridian RO (nanmin RO xs) (nanmax RO xs) && negb (y_is_pole RO (nanmin RO ys) (nanmax RO ys)).
+(* the x coordinate, in the frozen CRS, of a point whose projected x is [x]: x % 360 in the wrapped modes, minus 180 when
+   the prime meridian is moved (reading of PROJ's +pm=180: H_pm, validated on the implementation by the harness) *)
+Definition frozen_x (geo : bool) (mode : amode) (pts : list (R * R)) (x : R) : R :=
+  if antimeridian_branch geo pts then match mode with MGlobal => x | MCrs => wrapR x - 180 | _ => wrapR x end else x.
+
 Lemma bound_centers_spec geo mode pts pm xc y0 y1 : valid_pts pts ->
   bound_centers RO wrapR geo mode pts = (pm, xc, y0, y1) ->
   y0 <= y1 /\ (forall p, In p pts -> y0 <= snd p <= y1) /\
   match xc with
   | Some (a, b) => a <= b /\ forall p, In p pts -> exists x' (k : Z),
-        x' = fst p - (if pm then 180 else 0) + 360 * IZR k /\ a <= x' <= b /\ (geo = false -> x' = fst p)
+        x' = fst p - (if pm then 180 else 0) + 360 * IZR k /\ a <= x' <= b /\ (geo = false -> x' = fst p) /\
+        x' = frozen_x geo mode pts (fst p)
   | None => geo = true /\ mode = MGlobal /\ pm = false
-  end /\ (geo = false -> pm = false).
+  end /\ (geo = false -> pm = false) /\ pm = (antimeridian_branch geo pts && match mode with MCrs => true | _ => false end).
 Proof.
   intros (Hne & Hx & Hy). unfold bound_centers. rewrite gen_am_test_char.
+  destruct (map_clean_xy RO pts) as [-> ->].
   rewrite (map_clean_id fst pts Hx), (map_clean_id snd pts Hy).
   pose proof (map_nonempty fst pts Hne) as Hnx. pose proof (map_nonempty snd pts Hne) as Hny.
   pose proof (nanmin_spec _ Hny) as [_ Hymin]. pose proof (nanmax_spec _ Hny) as [_ Hymax].
   pose proof (nanmin_spec _ Hnx) as [_ Hxmin]. pose proof (nanmax_spec _ Hnx) as [_ Hxmax].
   assert (HY : forall p, In p pts -> nanmin RO (map snd pts) <= snd p <= nanmax RO (map snd pts)).
   { intros p Hp. split; [apply Hymin | apply Hymax]; apply in_map, Hp. }
-  destruct (geo && passes_antimeridian RO (nanmin RO (map fst pts)) (nanmax RO (map fst pts))
-            && negb (y_is_pole RO (nanmin RO (map snd pts)) (nanmax RO (map snd pts)))) eqn:C.
+  unfold frozen_x. fold (antimeridian_branch geo pts). destruct (antimeridian_branch geo pts) eqn:C; unfold antimeridian_branch in C.
   - intros E; inversion E; subst; clear E.
     apply andb_prop in C as [C _]. apply andb_prop in C as [Hg _].
-    split; [apply nanmin_le_nanmax, Hny|]. split; [exact HY|]. split; [|intros G; rewrite G in Hg; discriminate].
+    split; [apply nanmin_le_nanmax, Hny|]. split; [exact HY|]. split; [|split; [intros G; rewrite G in Hg; discriminate | reflexivity]].
     pose proof (new_x_corners_spec mode (map fst pts) Hnx) as S.
     destruct (new_x_corners RO wrapR mode (map fst pts)) as [[a b]|].
     + destruct S as (Hm & Hab & Hin). split; [exact Hab|]. intros p Hp.
       destruct (wrapR_shift (fst p)) as [k Hk].
       exists (wrapR (fst p) - pm_of mode), k. specialize (Hin (fst p) (in_map fst _ _ Hp)).
-      split; [|split; [exact Hin | intros G; rewrite G in Hg; discriminate]].
+      split; [|split; [exact Hin | split; [intros G; rewrite G in Hg; discriminate | destruct mode; cbn [pm_of]; try lra; contradiction]]].
       rewrite Hk. destruct mode; cbn [pm_of]; lra.
     + subst mode. auto.
   - intros E; inversion E; subst; clear E.
-    split; [apply nanmin_le_nanmax, Hny|]. split; [exact HY|]. split; [|reflexivity].
+    split; [apply nanmin_le_nanmax, Hny|]. split; [exact HY|]. split; [|split; reflexivity].
     split; [apply nanmin_le_nanmax, Hnx|]. intros p Hp. exists (fst p), 0%Z.
-    split; [lra|]. split; [|reflexivity]. split; [apply Hxmin | apply Hxmax]; apply in_map, Hp.
+    split; [lra|]. split; [|split; reflexivity]. split; [apply Hxmin | apply Hxmax]; apply in_map, Hp.
 Qed.
